@@ -10,4 +10,4 @@ Extraction "../ocaml/model.ml"
   decode walk_leaves no_trivia_edge tok_cells leaves flatten layout
   parse_entry exec call_fn init_state a_close_root ghost_empty
   analyse Cli.run all_rows prog_ok
-  wf_ids_b productive_b first_closed fol_closed recovery_cert.
+  wf_ids_b productive_b first_closed fol_closed recovery_cert p_peek p_peek_left.
